@@ -49,6 +49,43 @@ def _obs(name, v):
         emit(name, "other", repr(v), str(v), dir(v)[:6])
 "#;
 
+/// A frozen library whose factories create closures *inside the library's code* that read the
+/// library's globals; the exporter stores such closures and they must behave the same after freeze.
+const LIB: &str = r#"
+LIBDATA = [1, 2, 3]
+LIBMAP = {"k": [7], "j": "s"}
+def make_reader():
+    def rd():
+        return [LIBDATA, LIBMAP["k"], len(LIBMAP)]
+    return rd
+def make_adder(n):
+    def ad(x):
+        return [x + n, LIBDATA[0], LIBMAP["j"]]
+    return ad
+def lib_pure(x):
+    y = [x, LIBDATA]
+    return y
+"#;
+
+const LIB_PRELUDE: &[&str] = &[
+    "load(\"lib\", \"make_reader\", \"make_adder\", \"lib_pure\", \"LIBDATA\")",
+    "rd0 = make_reader()",
+    "ad0 = make_adder(5)",
+    "lp0 = lib_pure",
+    "held0 = [LIBDATA, rd0, {\"f\": ad0}]",
+];
+
+fn build_lib() -> Option<FrozenModule> {
+    Module::with_temp_heap(|m| {
+        {
+            let mut e = Evaluator::new(&m);
+            let ast = kit::parse("lib.star", LIB).ok()?;
+            e.eval_module(ast, kit::globals()).ok()?;
+        }
+        m.freeze().ok()
+    })
+}
+
 const SUBS_HELPER: &str = r#"
 def _subs(v, d):
     out = [v]
@@ -77,7 +114,7 @@ const MUTATIONS: &[(&str, &str, bool)] = &[
     ("list", "T.clear()", true),
     ("list", "T[0] = 1", true),
     ("list", "T[-1] = None", true),
-    ("list", "HH = [T]\nHH[0] += [1]", false),
+    ("list", "HH = [T]\nHH[0] += [1]", true),
     ("list", "HH = [T]\nHH[0] *= 2", false),
     ("list", "T.append(T)", true),
     ("dict", "T[\"new\"] = 1", true),
@@ -88,7 +125,7 @@ const MUTATIONS: &[(&str, &str, bool)] = &[
     ("dict", "T.pop(list(T.keys())[0] if T else \"q\", None)", true),
     ("dict", "T.popitem()", true),
     ("dict", "T.clear()", true),
-    ("dict", "HH = [T]\nHH[0] |= {\"n\": 1}", false),
+    ("dict", "HH = [T]\nHH[0] |= {\"n\": 1}", true),
     ("set", "T.add(99)", true),
     ("set", "T.discard(list(T)[0] if T else 1)", true),
     ("set", "T.remove(list(T)[0] if T else 1)", true),
@@ -124,12 +161,23 @@ fn frozen_names(fm: &FrozenModule) -> Vec<String> {
     public_names(fm.names().map(|n| n.as_str().to_owned()).filter(|n| matches!(fm.get_option_owned(n), Ok(Some(_)))))
 }
 
-fn obs_lines(names: &[String]) -> String {
-    names.iter().map(|n| format!("_obs(\"{n}\", {n})\n")).collect()
+fn obs_lines(names: &[String], pure1: &[String]) -> String {
+    let mut s: String = names.iter().map(|n| format!("_obs(\"{n}\", {n})\n")).collect();
+    // Side-effect-free callables are also *called*: same result before and after freeze.
+    for n in names {
+        if n == "rd0" {
+            s += "emit(\"call\", \"rd0\", rd0())\n";
+        } else if n == "ad0" || n == "lp0" || pure1.contains(n) {
+            s += &format!("emit(\"call\", \"{n}\", {n}(3))\n");
+        } else if n == "held0" {
+            s += "emit(\"call\", \"held0\", held0[1](), held0[2][\"f\"](4))\n";
+        }
+    }
+    s
 }
 
 /// Observe a frozen module through a fresh importer.
-fn observe_frozen(fm: &FrozenModule, modname: &str) -> ObsRes {
+fn observe_frozen(fm: &FrozenModule, modname: &str, pure1: &[String]) -> ObsRes {
     let names = frozen_names(fm);
     let loader = kit::MapLoader { modules: [(modname.to_owned(), fm.clone())].into_iter().collect() };
     let before = kit::ctx(|c| c.transcript.len());
@@ -142,7 +190,7 @@ fn observe_frozen(fm: &FrozenModule, modname: &str) -> ObsRes {
         } else {
             format!("load(\"{modname}\", {})\n", names.iter().map(|n| format!("\"{n}\"")).collect::<Vec<_>>().join(", "))
         };
-        let text = format!("{load}{OBS_HELPER}{}", obs_lines(&names));
+        let text = format!("{load}{OBS_HELPER}{}", obs_lines(&names, pure1));
         match kit::parse("observer.star", &text) {
             Err(e) => err = Some(format!("{e}")),
             Ok(ast) => {
@@ -175,7 +223,7 @@ impl World for C04 {
             sim_time_unit: "importer evaluations performed against the frozen module",
             real_components: vec!["Module::freeze / Freezer / FreezeBranded impls", "frozen list/dict/set/struct/record/enum/tuple/def values and their mutators", "load() / FrozenModule API", "evaluator"],
             stub_components: vec!["file loader", "freeze point chosen by the simulator (prefix of the module)"],
-            assumptions: vec!["a mutating method applied to a frozen container must return an error even if it would not change the content (e.g. clear() of an empty list); no false alarm of this kind was seen on the unchanged tree", "augmented assignment through an index (HH[0] += ..) may rebind instead of mutating: only the unchanged-observation oracle applies to it"],
+            assumptions: vec!["a mutating method applied to a frozen container must return an error even if it would not change the content (e.g. clear() of an empty list); no false alarm of this kind was seen on the unchanged tree", "`HH[0] *= 2` builds a new list and is only checked with the unchanged-observation oracle; `+=` on a frozen list and `|=` on a frozen dict must error (they do on the unchanged tree)"],
             exhaustive: false,
         }
     }
@@ -196,8 +244,15 @@ impl World for C04 {
         feat.emit_rate = 0;
         feat.mutation = true;
         let n = 6 + wl.usize(24);
-        let (stmts, _) = gen_module(&mut wl, feat, "", n, &[], false);
-        let stmts: Vec<String> = stmts.into_iter().filter(|s| !s.starts_with("emit(")).collect();
+        let (stmts, exports) = gen_module(&mut wl, feat, "", n, &[], false);
+        let mut stmts: Vec<String> = stmts.into_iter().filter(|s| !s.starts_with("emit(")).collect();
+        let pure1: Vec<String> = exports.iter().filter(|(_, k)| *k == crate::genprog::Kind::PureFunc1).map(|(n, _)| n.clone()).collect();
+        let use_lib = fl.chance(2, 3);
+        if use_lib {
+            let mut pre: Vec<String> = LIB_PRELUDE.iter().map(|s| (*s).to_owned()).collect();
+            pre.extend(stmts);
+            stmts = pre;
+        }
         let freeze_at = if fl.chance(1, 2) { stmts.len() } else { 1 + fl.usize(stmts.len()) };
         let na = 6 + fl.usize(19);
         let attacks: Vec<Json> = (0..na)
@@ -206,7 +261,7 @@ impl World for C04 {
                 json!({"importer": fl.below(3), "export": fl.below(64), "cand": fl.below(64), "mutation": m, "depth": fl.below(4)})
             })
             .collect();
-        json!({"stmts": stmts, "freeze_at": freeze_at, "gc": fl.chance(1, 3), "attacks": attacks, "second_level": fl.chance(1, 2)})
+        json!({"stmts": stmts, "freeze_at": freeze_at, "gc": fl.chance(1, 3), "attacks": attacks, "second_level": fl.chance(1, 2), "pure1": pure1, "use_lib": use_lib})
     }
 
     fn execute(&self, case: &Json) -> Outcome {
@@ -216,6 +271,8 @@ impl World for C04 {
         let stmts: Vec<String> = case["stmts"].as_array().map(|a| a.iter().filter_map(|x| x.as_str().map(|s| s.to_owned())).collect()).unwrap_or_default();
         let k = (case["freeze_at"].as_u64().unwrap_or(stmts.len() as u64) as usize).min(stmts.len());
         let gc = case["gc"].as_bool().unwrap_or(false);
+        let pure1: Vec<String> = case["pure1"].as_array().map(|a| a.iter().filter_map(|x| x.as_str().map(|s| s.to_owned())).collect()).unwrap_or_default();
+        let lib_loader = kit::MapLoader { modules: build_lib().map(|l| [("lib".to_owned(), l)].into_iter().collect()).unwrap_or_default() };
         if gc {
             verif_hooks::set_gc_decider(Some(Box::new(|_| GcDecision::Collect)));
         }
@@ -225,11 +282,12 @@ impl World for C04 {
         let frozen = Module::with_temp_heap(|module| {
             {
                 let mut eval = Evaluator::new(&module);
+                eval.set_loader(&lib_loader);
                 let text = stmts[..k].join("\n") + "\n";
                 let _ = eval_on(&mut eval, "exporter.star", &text);
                 let names = public_names(module.names().map(|n| n.as_str().to_owned()).filter(|n| module.get(n).is_some()));
                 let before = kit::ctx(|c| c.transcript.len());
-                let obs = format!("{OBS_HELPER}{}", obs_lines(&names));
+                let obs = format!("{OBS_HELPER}{}", obs_lines(&names, &pure1));
                 if let Err(e) = eval_on(&mut eval, "observer.star", &obs) {
                     pre_err = Some(e);
                 }
@@ -254,7 +312,7 @@ impl World for C04 {
             o.bump("probe.collections_forced_before_freeze", 1);
         }
         // 2. Freeze preserves: the importer-side observation equals the in-module one.
-        let post = observe_frozen(&fm, "exp");
+        let post = observe_frozen(&fm, "exp", &pure1);
         o.sim_time += 1;
         if pre_err.is_some() != post.err.is_some() {
             o.violate("freeze-changed-value", "preserve", format!("observation error before freeze {:?}, after {:?}", pre_err, post.err));
@@ -359,7 +417,7 @@ impl World for C04 {
                         break;
                     }
                     // Whatever happened, the frozen module must be unchanged.
-                    let now = observe_frozen(&fm, "exp");
+                    let now = observe_frozen(&fm, "exp", &pure1);
                     o.sim_time += 1;
                     if let Some(d) = kit::diff_transcripts(&reference, &now.lines) {
                         o.violate(
@@ -405,7 +463,7 @@ impl World for C04 {
                         }
                     }
                 });
-                let now = observe_frozen(&fm, "exp");
+                let now = observe_frozen(&fm, "exp", &pure1);
                 if let Some(d) = kit::diff_transcripts(&reference, &now.lines) {
                     o.violate("frozen-value-changed", "changed/second-level", format!("after second-level attacks: {d}"));
                 }
